@@ -80,6 +80,8 @@ def gen(rng, tier):
         cc = rb(32, rng.random() < 0.2)
         if depth == 0 and rng.random() < 0.7:
             fp, idx = bytes(4), 0
+        elif depth > 0 and rng.random() < 0.25:
+            fp = bytes(4)          # what the library itself writes for keys built from raw key bytes without derivation data
         c = ("secp256k1", "nist256p1")[i % 2]
         k = rng.randrange(1, ORDER[c]) if rng.random() < 0.8 else rng.randrange(1, 2**rng.choice([8, 100, 240]))
         kb = k.to_bytes(32, "big")
